@@ -3,6 +3,7 @@ the runner Ops/Multi.v; closed-world theorems over the timer-firing simulator
 Ops/TimedSim.v (Props/C15.v); tie: K2 multi-source port-level replay with the
 proxy scheduler (harness/k2m.py, harness/timed_table.py); oracle: below, a
 direct reading of the property statement on the implementation's log."""
+import timed_extra as te
 import timed_table as tt
 from timed_table import view, common_timed, elems, terminal, src_view
 
@@ -147,7 +148,8 @@ def o_stamp(inst, res, v, interval):
             got.append((t, b.value, tt.ms(b.interval)))
         else:
             import k2m
-            got.append((t, b.value, tt.ms(b.timestamp - k2m.EPOCH)))
+            # the scheduler clock reading, minus the (random) reading at the subscription instant
+            got.append((t, b.value, tt.ms(b.timestamp - k2m.EPOCH) - res.get("t0", 0)))
     name = "time_interval" if interval else "timestamp"
     if got != exp:
         return f"{name}: emissions (time, value, reading) {got}, expected {exp}"
@@ -178,13 +180,27 @@ def run(chk):
     # a broken proof / theorem file: enlarge the search for a failing input to the thorough scope
     tt.run_timed(chk, "C15", NAMES, oracle, ncase=None if ok else 2000)
     tt.closed_world(chk, "C15", NAMES)
+    # oracle-only families (harness/timed_extra.py): feedback into delay's drain loop; delay observables that fire
+    # inside subscribe() or are real timer()s under TestScheduler
+    te.run_families(chk, "C15", {"fb_delay": (250, 4000), "dwm_kinds": (300, 4000)})
     chk.cov["rule"] = ("per operator: seeded instances (due times 0/5/10/20 ms as float seconds, timedelta or absolute "
                        "datetime incl. one in the past; scheduler passed to the operator or to subscribe; mapper "
                        "tables indexed by invocation, 12% raising) x seeded timelines of hand-driven hot sources on "
                        "the proxy scheduler's virtual clock (0-5 elements, gaps 0 / due-5 / due / due+5 / 2*due, "
                        "bursts at one instant, values incl. 0 and None, completion/error/none, 10% non-conforming "
-                       "tails, 15% with a dispose instant); non-trivial = distinct (machine, delivered input "
-                       "sequence) with >= 2 emissions and the oracle satisfied")
+                       "tails, 15% with a dispose instant; the measured subscription happens at proxy-clock reading "
+                       "0/35/200/1000 ms -- absolute due times are offsets from it -- and in 35% of the cases is the "
+                       "SECOND subscription of the same observable object, after a warm-up subscription with its own "
+                       "timeline, fired timers and dispose; relative due times include -5 ms); non-trivial = distinct "
+                       "(machine, delivered input sequence) with >= 2 emissions and the oracle satisfied.  Oracle-only "
+                       "families (cov.oracle_only_families; non-trivial = distinct parameter sets with >= 2 "
+                       "notifications, a push having happened in the feedback family): fb_delay = delay(0/5/10 as "
+                       "float, timedelta or absolute datetime) under TestScheduler with a subscriber that pushes an "
+                       "element / completion / error back into the source from inside on_next; dwm_kinds = "
+                       "delay_with_mapper whose delay observables fire inside subscribe() (hand-written, empty()/of()/"
+                       "throw() without scheduler, terminated/Behavior/Replay subjects), are hand-held, or are real "
+                       "timer(x)/empty()/of() under TestScheduler; same-instant orders the text leaves open are "
+                       "accepted or the case is skipped as a tie (counted)")
     chk.cov["operators_modelled"] = NAMES
     return chk.finish(trusted_extra=[
         "multi-source K2 driver harness/k2m.py with its proxy scheduler (integer-millisecond virtual clock, records "
@@ -196,9 +212,15 @@ def run(chk):
         "are queued before the subscription, under reactivex.testing.TestScheduler and HistoricalScheduler",
         "closed-world theorems are about Ops/TimedSim.v: every requested timer fires exactly at request time + "
         "clamped delay, source events first at equal instants (the proxy scheduler's policy); numeric vs datetime "
-        "clocks: the millisecond conversion layer is C36"],
+        "clocks: the millisecond conversion layer is C36",
+        "harness/timed_table.py run_case/warm_up: the warm-up subscription and the clock offset are applied inside "
+        "the build callback handed to k2m.run_multi (the harness state is wiped as k2m does after its own warm-up)",
+        "harness/timed_extra.py: oracle-only families with their own hand-made hot source, TestScheduler driver and "
+        "references written from the property text (no Coq model behind them)"],
         assumptions=["timelines are in integer milliseconds; datetime/timedelta arithmetic is exact on them"])
 
 
 def replay(chk, path):
+    if te.is_family_replay(path):
+        return te.replay_family("C15", path)
     return tt.replay_cases("C15", oracle, path)
